@@ -21,8 +21,9 @@ META = {
              'generation/nonce supply never repeats; SHA3-256 separates different commit ids. Tolerated, counted '
              'divergences from InMemory (documented behaviour of the wrappers): delete of a missing key reports NotFound; '
              'update without e_tag reports Precondition; rename onto itself keeps the object; version-conditioned updates '
-             'are refused (no versions); `head` reads return no body. Concurrent callers per key are not explored '
-             '(partial): moka\'s per-key compute section is modelled as a mutex.'),
+             'are refused (no versions); `head` reads return no body. Concurrent callers per key: all 2-caller reader/writer schedules at backend-call '
+             'granularity are run on the implementation (judge: one commit per view, never an older commit after an acknowledged one); '
+             'not proved in Coq beyond the mutex abstraction of moka\'s per-key compute section; writer/writer races are not explored (partial).'),
     'technique': 'Coq proof (refinement to a reference store by induction over histories, injectivity argument, lia over div/mod) + translator-generated facts + differential run wrapper vs InMemory + model vs wrapper',
 }
 
@@ -43,7 +44,10 @@ def run(ck):
                'x date conditions x head; head; get_ranges incl. repeated and invalid ranges; list / list_with_offset / '
                'list_with_delimiter; delete; copy and rename in both target modes; cold restarts), payload sizes '
                '{0,1,cs-1,cs,cs+1,2cs,3cs+2,5} and two byte-identical payloads, x MetaStore and EncryptedStore with chunk size '
-               '1/7/16/65536; non-trivial = a distinct sequence with >= 3 mutating calls')
+               '1/7/16/65536; plus two callers per key: every interleaving of the backend calls of one reader (list / list_with_delimiter / '
+               'list_with_offset / head / get / get_ranges) and one writer (put / copy / multipart / delete) of the same key through one '
+               'instance with a cold metadata cache, with and without a failing cleanup of the replaced generation; '
+               'non-trivial = a distinct sequence with >= 3 mutating calls')
     ck.translate()
     ck.coq(['Store/Props_C07.v'], ['Store', 'gen', 'Common'], model_targets=['Store/Run.vo'])
     ck.trust('premise (C07_tokens_never_repeat): the generation / nonce supply never repeats (gen_of injective)',
@@ -51,7 +55,7 @@ def run(ck):
              'premise (C07_wrapper_refines_ref_partial): the generation minted for a call is not the one its target key points at',
              'model: the per-key critical section of moka and_try_compute_with serialises the decision and the commit of one key')
     ck.assume('object_store::memory::InMemory is the reference semantics',
-              'sequential callers only; concurrency per key is not explored')
+              'concurrency per key: reader/writer pairs only')
     binary = ck.cargo('h_store')
     if binary:
         out = ck.work + '/c07.jsonl'
@@ -65,7 +69,7 @@ def run(ck):
             ck.count(summary['evaluations'])
             ck.cov['input_distribution'] = {k: summary[k] for k in (
                 'sequences', 'calls', 'results', 'wrappers', 'tolerated_divergences', 'cas_ok', 'cas_rejected',
-                'rewrites_after_retired_token', 'span_cases', 'pre_cases')}
+                'rewrites_after_retired_token', 'span_cases', 'pre_cases', 'two_caller_scenarios', 'two_caller_schedules', 'two_caller_exhaustive')}
             for f in summary['failures']:
                 ck.violation(f['class'], f['what'], True, {'failing_input': f})
             import vlib
@@ -78,8 +82,8 @@ def run(ck):
                   json.dumps([f for f in summary['failures'] if f['class'] not in known][:2])[:3000])
             ck.ob('the run exercised accepted and rejected conditional updates, rewrites after a retired token, chunk spans and preconditions',
                   summary['cas_ok'] > 0 and summary['cas_rejected'] > 0 and summary['rewrites_after_retired_token'] > 0
-                  and summary['span_cases'] > 0 and summary['pre_cases'] > 0, 'correspondence',
-                  json.dumps({k: summary[k] for k in ('cas_ok', 'cas_rejected', 'rewrites_after_retired_token', 'span_cases', 'pre_cases')}))
+                  and summary['span_cases'] > 0 and summary['pre_cases'] > 0 and summary['two_caller_schedules'] > 0, 'correspondence',
+                  json.dumps({k: summary[k] for k in ('cas_ok', 'cas_rejected', 'rewrites_after_retired_token', 'span_cases', 'pre_cases', 'two_caller_scenarios', 'two_caller_schedules', 'two_caller_exhaustive')}))
             for pt in summary['nontrivial']:
                 ck.nontrivial(tuple(pt))
             for chk in ('hist', 'pre', 'span'):
